@@ -378,7 +378,7 @@ theorem factorize_q_degree (p : SubPoly) (n : Nat) : (p.factorize e n).1.degree 
   simp only
   by_cases h : p.coeffs = []
   · simp [h]
-  · rw [headD_map_ne _ _ [] [] h, factorizeF_len1]; omega
+  · rw [headD_mapIdx_ne _ _ [] [] h, factorizeF_len1]; omega
 
 include h64 hinv hq in
 /-- **recursePS_scale**: with `L − T` levels of budget for the degree, the simulated evaluation of `p`
